@@ -283,8 +283,11 @@ void TraceRecorder::saveLog(const char *logFile, const char *processName)
     ++nextTid;
   }
   // We need to remove the last , we output to ensure the JSON array is correct
-  // Overwrite it with the ] character.
-  fout.seekp(-1, std::ios::cur);
+  // Overwrite it with the ] character. If nothing follows the [ there is no
+  // comma to remove.
+  if (fout.tellp() > std::streampos(1)) {
+    fout.seekp(-1, std::ios::cur);
+  }
   fout << "]";
 }
 
